@@ -178,6 +178,8 @@ def _rest(P, R):
     n_dt = _dt.check_function(P, R, "kmeans:accumulate_indices_means_vars", raw_params=("data",))
     n_dt += _dt.check_function(P, R, "kmeans:get_centroids_distance", raw_params=("x",))
     R.floor("DTYPE.raw sites (k-means moments)", n_dt, 2)
+    from ..engines import traps as _traps
+    _traps.check(P, R, ['kmeans', 'gmm'], scope='(kmeans:|gmm:GMMMachine\\.initialize_gaussians)')
 
 
 EXPLANATION += ' Also: (DEP.init-exact) in the k-means arm the initial variances and weights are exactly what the fitted machine derives from the training data; (DTYPE.raw) squares of the samples are taken in floating point (D13).'
